@@ -124,7 +124,7 @@ func (l *lexer) next() bool {
 				l.line++
 				comment = false
 			}
-			if len(val) > 0 {
+			if len(val) > 0 && !comment {
 				return makeToken()
 			}
 			continue
